@@ -161,9 +161,9 @@ pub fn c12_fresh_counter() {
 #[test]
 fn verif_replay_entry() {
     let hn = std::env::var("VERIF_REPLAY_HARNESS").unwrap_or_default();
-    if hn == "validate_sequence" || hn == "cleanup" || hn == "batch" || hn == "persist" {
+    if hn == "validate_sequence" || hn == "cleanup" || hn == "batch" || hn == "persist" || hn == "race_submit" {
         let case: serde_json::Value = serde_json::from_str(&std::env::var("VERIF_REPLAY_CASE").unwrap_or_default()).expect("case json");
-        let obs = if hn == "persist" { driver::persist(&case) } else if hn == "cleanup" { driver::cleanup(&case) } else if hn == "batch" { driver::batch(&case) } else { driver::validate_sequence(&case) };
+        let obs = if hn == "race_submit" { driver::race_submit(&case) } else if hn == "persist" { driver::persist(&case) } else if hn == "cleanup" { driver::cleanup(&case) } else if hn == "batch" { driver::batch(&case) } else { driver::validate_sequence(&case) };
         println!("VERIF-OBS {}", obs);
         return;
     }
@@ -320,6 +320,48 @@ mod driver {
         }
         let _ = std::fs::remove_dir_all(&dir);
         Value::Object(out)
+    }
+    /// stress confirmation for the atomicity obligations: eight tasks submit the same (peer, number) at once, number after number; more than one acceptance is a race
+    pub fn race_submit(case: &Value) -> Value {
+        let batch = case["__driver"].as_str() == Some("batch") || case["__params"].get("same_user").is_some();
+        let rt = tokio::runtime::Builder::new_multi_thread().worker_threads(8).enable_all().build().unwrap();
+        rt.block_on(async {
+            let sys = Arc::new(MonotonicCounterSystem {
+                counters: Arc::new(RwLock::new(HashMap::new())), storage_path: PathBuf::new(), sync_interval: Duration::from_secs(30), sync_task: None,
+                stats: Arc::new(Mutex::new(CounterStats::default())),
+            });
+            let uid = UserId { hash: [7u8; 32] };
+            let mut worst = 0usize;
+            let mut rounds_with_race = 0usize;
+            for n in 1..=3000u64 {
+                let barrier = Arc::new(tokio::sync::Barrier::new(8));
+                let mut hs = Vec::new();
+                for t in 0..8u8 {
+                    let (sys, uid, b) = (sys.clone(), uid.clone(), barrier.clone());
+                    hs.push(tokio::spawn(async move {
+                        b.wait().await;
+                        if batch {
+                            let ts = std::time::SystemTime::now().duration_since(std::time::UNIX_EPOCH).map(|d| d.as_secs()).unwrap_or(0);
+                            match sys.batch_update(vec![BatchUpdateRequest { user_id: uid, sequence: n, message_hash: [t; 32], timestamp: ts }]).await {
+                                Ok(r) => r.iter().filter(|x| x.applied).count(),
+                                Err(_) => 0,
+                            }
+                        } else {
+                            matches!(sys.validate_sequence(&uid, n, [t; 32]).await, Ok(SequenceValidationResult::Valid)) as usize
+                        }
+                    }));
+                }
+                let mut acc = 0usize;
+                for h in hs {
+                    acc += h.await.unwrap_or(0);
+                }
+                if acc > 1 {
+                    rounds_with_race += 1;
+                    worst = worst.max(acc);
+                }
+            }
+            json!({"race_observed": worst > 1, "detail": format!("{rounds_with_race} of 3000 numbers were accepted more than once (worst: {worst} times)")})
+        })
     }
     pub fn cleanup(case: &Value) -> Value {
         let users = [("other", UserId { hash: bytes32(case, "o") }), ("cand", UserId { hash: bytes32(case, "u") })];
